@@ -164,7 +164,7 @@ class Models:
 
     def float_binop(self, I, st, op, a, b):
         if op in ('Eq', 'Ne', 'Lt', 'Le', 'Gt', 'Ge'):
-            return VBool(None, ('fcmp', op.lower(), a, b))
+            return I.unknown_bool(('fcmp', op.lower(), a, b))
         if not isinstance(a, VFloat) or not isinstance(b, VFloat):
             return VFloat(None, None)
         name = {'Add': 'add', 'Sub': 'sub', 'Mul': 'mul', 'Div': 'div', 'Rem': 'rem'}.get(op)
@@ -418,7 +418,7 @@ class Models:
                 return VBool(True)
             if 'inf' not in v.cls:
                 return VBool(False)
-            return VBool(None, ('fcls', M.arg_loc(c, 0), v, 'inf'))
+            return c.I.unknown_bool(('fcls', M.arg_loc(c, 0), v, 'inf'))
 
         @reg('core::f64::<impl f64>::is_nan')
         def is_nan(c):
@@ -427,7 +427,7 @@ class Models:
                 return VBool(True)
             if 'nan' not in v.cls:
                 return VBool(False)
-            return VBool(None, ('fcls', M.arg_loc(c, 0), v, 'nan'))
+            return c.I.unknown_bool(('fcls', M.arg_loc(c, 0), v, 'nan'))
 
         @reg('std::f64::<impl f64>::round')
         def fround(c):
